@@ -4,6 +4,7 @@
    module, and the termination callback when the module fires it:
      {"e":"cfg","n":N}  {"e":"ready","r":R}  {"e":"spawn","r":R}  {"e":"taskdone","r":R}  {"e":"actiondone","r":R}
      {"e":"sendapp","r":R,"q":Q}  {"e":"recvstart","q":Q}  {"e":"recvend","q":Q}  {"e":"deliver","p":P,"q":Q}
+     {"e":"recvendtask","q":Q}   the reception completes by releasing a task (no flying-message action)
      {"e":"term","r":R}     the detector of R declared termination (callback)
      {"e":"end"}            the harness made everything quiet and delivered control messages fairly (bounded)
      {"e":"stuck"}          ... and some rank still had not terminated: never accepted
@@ -21,12 +22,12 @@ IsEv(e) == l <= Len(TraceLog) /\ Ev.e = e /\ l' = l + 1
 Procs == 0..(n-1)
 Zero == [r \in Procs |-> 0]
 \* protocol variables of FourCounter.tla that the property-level validation does not use
-Unused == <<sent, recv, accS, accR, left, lastS, lastR, ctl, delayed, budgetM, budgetS, assertFail>>
+Unused == <<sent, recv, accS, accR, left, lastS, lastR, ctl, delayed, budgetM, budgetS, assertFail, variant>>
 
 TInit == /\ l = 1 /\ n = 0 /\ ended = TRUE
          /\ st = <<>> /\ tasks = <<>> /\ pa = <<>> /\ flight = <<>> /\ started = <<>> /\ cb = <<>>
          /\ sent = 0 /\ recv = 0 /\ accS = 0 /\ accR = 0 /\ left = 0 /\ lastS = 0 /\ lastR = 0 /\ ctl = 0 /\ delayed = 0
-         /\ budgetM = 0 /\ budgetS = 0 /\ assertFail = FALSE
+         /\ budgetM = 0 /\ budgetS = 0 /\ assertFail = FALSE /\ variant = "code"
 Keep(v) == UNCHANGED v
 TReset == /\ IsEv("Reset") /\ n' = 0 /\ ended' = TRUE
           /\ st' = <<>> /\ tasks' = <<>> /\ pa' = <<>> /\ flight' = <<>> /\ started' = <<>> /\ cb' = <<>>
@@ -51,6 +52,9 @@ TRecvStart == /\ IsEv("recvstart") /\ Live(Ev.q) /\ flight[Ev.q] > 0
 TRecvEnd == /\ IsEv("recvend") /\ Live(Ev.q) /\ started[Ev.q] > 0
             /\ started' = [started EXCEPT ![Ev.q] = @ - 1] /\ pa' = [pa EXCEPT ![Ev.q] = @ + 1]
             /\ Keep(<<n, ended, st, tasks, flight, cb>>)
+TRecvEndTask == /\ IsEv("recvendtask") /\ Live(Ev.q) /\ started[Ev.q] > 0
+                /\ started' = [started EXCEPT ![Ev.q] = @ - 1] /\ tasks' = [tasks EXCEPT ![Ev.q] = @ + 1]
+                /\ Keep(<<n, ended, st, pa, flight, cb>>)
 TDeliver == /\ IsEv("deliver") /\ Live(Ev.p) /\ Ev.q \in Procs
             /\ Keep(<<n, ended, st, tasks, pa, flight, started, cb>>)
 \* SAFETY: termination may be declared only in a quiet system; and only once per process
@@ -65,7 +69,7 @@ TEnd == /\ IsEv("end") /\ ~ended
         /\ \A r \in Procs : cb[r] = 1
         /\ ended' = TRUE /\ Keep(<<n, st, tasks, pa, flight, started, cb>>)
 TNext == /\ \/ TReset \/ TCfg \/ TReady \/ TSpawn \/ TTaskDone \/ TActionDone \/ TSendApp \/ TRecvStart \/ TRecvEnd
-            \/ TDeliver \/ TTerm \/ TEnd
+            \/ TRecvEndTask \/ TDeliver \/ TTerm \/ TEnd
          /\ UNCHANGED Unused
 TSpec == TInit /\ [][TNext]_tvars
 AcceptExit == (l > Len(TraceLog)) => (PrintT("VERIF-ACCEPTED") /\ TLCSet("exit", TRUE))
